@@ -121,6 +121,14 @@ fn gen_terms(u: &Uni, max_depth: usize) -> Terms {
                 na.push(call("pick", vec![a(src), x.clone()]));
             }
             na.push(call("ctxfn", vec![a(src), Arg::Lit(Lit::int(9))]));
+            // two non-mapped arguments: their order must survive (cheap / memoised / mixed)
+            na.push(call("opt", vec![a(src), Arg::Lit(Lit::int(3)), Arg::Lit(Lit::str(b"q"))]));
+            na.push(call("opt", vec![a(src), a(&f("i")), a(&f("s"))]));
+            na.push(call("opt", vec![a(src), a(&call("len", vec![a(&f("s"))])), a(&call("idb", vec![a(&f("s"))]))]));
+            na.push(call("opt", vec![a(src), Arg::Lit(Lit::int(3)), a(&call("nie", vec![a(&f("s"))]))]));
+            na.push(call("concat", vec![a(src), Arg::Lit(Lit::str(b"-a")), Arg::Lit(Lit::str(b"-b"))]));
+            na.push(call("concat", vec![a(src), a(&f("s")), a(&call("up", vec![a(&f("s"))])), Arg::Lit(Lit::str(b"!"))]));
+            na.push(call("ctxfn", vec![a(src), Arg::Lit(Lit::int(1)), a(&f("t"))]));
         }
         for ar in &prev_a {
             na.push(call("concat", vec![a(ar), a(&f("xs"))]));
